@@ -13,6 +13,7 @@ Lemma buf_len_eq : buf_len = 33%nat. Proof. reflexivity. Qed.
 Lemma buf_cap_eq : kfmt_numFmtBufCap = kfmt_numFmtBufLen. Proof. reflexivity. Qed.
 Lemma single_ok c : single c = Ok [c]. Proof. reflexivity. Qed.
 
+Ltac len_norm := repeat (progress (rewrite ?app_length, ?repeat_length, ?rev_length; cbn [length])).
 Ltac norm_app := repeat (first [rewrite <- app_assoc | progress cbn [app]]).
 
 (** ---- buffer access ---- *)
@@ -405,37 +406,43 @@ Proof.
   { destruct Hd as [-> | [-> | ->]]; vm_compute; discriminate. }
   assert (Hn1 : (1 <= length ds)%nat) by (apply lsd_nonempty; lia).
   assert (Hn2 : (length ds <= 22)%nat) by apply lsd_length.
+  pose proof (lsd_all_digits 22 divider uval Hd2 Hd16) as Hall. fold ds in Hall.
   unfold int_core.
   pose proof (digit_loop_spec 22 (S (Z.to_nat maxBufSize)) divider [] buf uval Hd2 Hd16 ltac:(lia) ltac:(lia)) as D.
+  cbv zeta in D. fold ds in D.
+  assert (Hkdef : k = Z.to_nat (padLen - Z.of_nat (length ds))) by reflexivity.
+  clearbody k. clearbody ds.
   rewrite maxBufSize_eq in *. cbn [app length] in D. change (Z.of_nat 0) with 0 in D.
-  rewrite D by (simpl; lia). clear D. fold ds. cbn [bind fst snd].
+  rewrite D by (cbn [Z.to_nat Pos.to_nat Pos.iter_op Nat.add]; lia). clear D. clear Hpow Hu. cbn [bind fst snd].
   set (post1 := skipn (length ds) buf).
   assert (Hp1 : length post1 = (33 - length ds)%nat) by (unfold post1; rewrite skipn_length; lia).
   rewrite Nat.add_0_l.
   rewrite (pad_loop_spec k (S (length buf)) ds post1 padLen padCh) by (try reflexivity; lia).
   cbn [bind]. set (post2 := skipn k post1).
   assert (Hp2 : length post2 = (33 - length ds - k)%nat) by (unfold post2; rewrite skipn_length; lia).
+  clearbody post2. clearbody post1.
   assert (Hk : (length ds + k <= 31)%nat) by lia.
   destruct neg.
   - (* negative *)
     destruct (exists_last (l := ds) ltac:(intros E; rewrite E in Hn1; simpl in Hn1; lia)) as [P0 [c Hds]].
     assert (Hc : c <> 32%N).
-    { pose proof (lsd_all_digits 22 divider uval Hd2 Hd16) as F. fold ds in F. rewrite Hds in F.
+    { pose proof Hall as F. rewrite Hds in F.
       apply Forall_app in F. destruct F as [_ F]. inversion F; subst. tauto. }
     assert (HlP : length ds = (length P0 + 1)%nat) by (rewrite Hds, app_length; simpl; lia).
     unfold int_out.
     destruct Hch as [-> | ->]; cbn [N.eqb Pos.eqb].
     + destruct k as [|k'] eqn:Ek.
-      * cbn [repeat app]. destruct post2 as [|y post']; [simpl in Hp2; lia|].
+      * cbn [repeat app]. destruct post2 as [|y post']; [cbn [length] in Hp2; lia|].
         rewrite Hds.
-        rewrite (int_tail_neg_append (S (length buf)) P0 c y post') by (auto; lia).
-        eexists; split; [|reflexivity]. cbn [length app]. rewrite app_length, rev_length. simpl in Hp2. rewrite <- Hds. lia.
+        rewrite (int_tail_neg_append (S (length buf)) P0 c y post').
+        2:auto. 2:lia. 2:{ rewrite app_length; cbn [length]; lia. }
+        eexists; split; [|reflexivity]. len_norm. cbn [length] in Hp2. lia.
       * rewrite Hds.
-        rewrite (int_tail_neg_inpad (S (length buf)) P0 c k' post2) by (auto; lia).
+        rewrite (int_tail_neg_inpad (S (length buf)) P0 c k' post2) by (auto; rewrite ?app_length; cbn [length]; lia).
         eexists; split; [|reflexivity].
-        rewrite !app_length, repeat_length. cbn [length]. rewrite rev_length, <- Hds. lia.
+        len_norm. lia.
     + (* zero padding: the last written character is a digit or '0' *)
-      destruct post2 as [|y post']; [simpl in Hp2; lia|].
+      destruct post2 as [|y post']; [cbn [length] in Hp2; lia|].
       assert (HP : exists Q c', ds ++ repeat 48%N k = Q ++ [c'] /\ c' <> 32%N).
       { destruct k as [|k'].
         - exists P0, c. cbn [repeat]. rewrite app_nil_r. auto.
@@ -444,16 +451,16 @@ Proof.
       assert (HlQ : (length Q + 1 = length ds + k)%nat).
       { apply (f_equal (@length N)) in HQ. rewrite !app_length, repeat_length in HQ. simpl in HQ. lia. }
       rewrite app_assoc, HQ.
-      rewrite (int_tail_neg_append (S (length buf)) Q c' y post') by (auto; lia).
+      rewrite (int_tail_neg_append (S (length buf)) Q c' y post') by (auto; rewrite ?app_length; cbn [length]; lia).
       rewrite <- HQ, rev_app_distr, rev_repeat.
       eexists; split; [|reflexivity].
-      cbn [length]. rewrite !app_length, repeat_length, rev_length. simpl in Hp2. lia.
+      len_norm. cbn [length] in Hp2. lia.
   - rewrite app_assoc.
     rewrite (int_tail_pos (S (length buf)) (ds ++ repeat padCh k) post2)
       by (rewrite app_length, repeat_length; lia).
     rewrite rev_app_distr, rev_repeat. unfold int_out.
     eexists; split; [|reflexivity].
-    rewrite !app_length, repeat_length, rev_length. lia.
+    len_norm. lia.
 Qed.
 
 (** ---- fmtInt = specification ---- *)
@@ -465,7 +472,7 @@ Definition model_mag (k : ikind) (x : Z) : N :=
 
 Lemma fmt_int_core buf k x base pad : base = 8 \/ base = 10 \/ base = 16 ->
   fmt_int buf (AInt k x) base pad =
-    int_core buf (Z.to_N base) (if base =? 10 then 32 else 48)%N
+    int_core buf (Z.to_N base) (if base =? 10 then 32%N else 48%N)
       (if pad >=? maxBufSize then maxBufSize - 1 else pad) (model_sval k x <? 0) (model_mag k x).
 Proof. intros [-> | [-> | ->]]; reflexivity. Qed.
 
@@ -494,11 +501,13 @@ Proof.
   assert (Hpow : (2 ^ 64 <= base ^ N.of_nat 22)%N).
   { destruct Hb as [-> | [-> | ->]]; vm_compute; discriminate. }
   unfold render_int. rewrite (digits_lsd base mag 22) by (auto; lia). fold ds.
+  assert (HpadLen : padLen = if pad >=? 32 then 32 - 1 else pad) by reflexivity.
+  clearbody ds. clearbody padLen.
   rewrite rev_length.
   set (w := N.min (Z.to_N pad) 31).
   set (k := Z.to_nat (padLen - Z.of_nat (length ds))).
   assert (Hk : k = N.to_nat (w - N.of_nat (length ds))).
-  { unfold k, w, padLen. destruct (pad >=? 32) eqn:E; lia. }
+  { unfold k, w. rewrite HpadLen. destruct (pad >=? 32) eqn:E; lia. }
   unfold int_out, rep.
   destruct (base =? 10)%N eqn:E10.
   - cbn [N.eqb Pos.eqb]. destruct neg.
@@ -517,10 +526,10 @@ Lemma fmt_int_exact buf k x base pad :
 Proof.
   intros Hlen Hb. rewrite fmt_int_core by exact Hb. rewrite maxBufSize_eq.
   assert (HbN : (Z.to_N base = 8 \/ Z.to_N base = 10 \/ Z.to_N base = 16)%N) by lia.
-  assert (Hch : ((if base =? 10 then 32 else 48) = 32 \/ (if base =? 10 then 32 else 48) = 48)%N)
+  assert (Hch : (if base =? 10 then 32%N else 48%N) = 32%N \/ (if base =? 10 then 32%N else 48%N) = 48%N)
     by (destruct (base =? 10); auto).
   assert (Hpad : (if pad >=? 32 then 32 - 1 else pad) <= 31) by (destruct (pad >=? 32) eqn:E; lia).
-  destruct (int_core_spec buf (Z.to_N base) (if base =? 10 then 32 else 48)%N
+  destruct (int_core_spec buf (Z.to_N base) (if base =? 10 then 32%N else 48%N)
               (if pad >=? 32 then 32 - 1 else pad) (model_sval k x <? 0) (model_mag k x)
               Hlen HbN (model_mag_lt k x) Hpad Hch) as [buf' [Hl' Hc]].
   exists buf'. split; [exact Hl'|]. rewrite Hc.
